@@ -36,6 +36,11 @@ def log(*a):
     print(*a, flush=True)
 
 
+def _die(msg):
+    log("INCONCLUSIVE machinery error: " + msg)
+    sys.exit(2)
+
+
 # --------------------------------------------------------------------------------------------
 # harness registry
 class Harness:
@@ -60,19 +65,19 @@ def scan_harnesses(prop):
             continue
         module = fn[:-3]
         if module not in MODULES:
-            raise SystemExit(f"harness file {fn}: unknown module")
+            _die(f"harness file {fn}: unknown module")
         text = open(os.path.join(d, fn)).read()
         for m in re.finditer(r"//\s*@h\s+([^\n]*)\n", text):
             meta = dict(kv.split("=", 1) for kv in m.group(1).split() if "=" in kv)
             name = meta.get("name")
-            if not name or not re.search(r"fn\s+%s\s*\(" % re.escape(name), text):
-                raise SystemExit(f"{fn}: @h line without matching fn: {m.group(1)}")
+            if not name or not re.search(r"\b%s\s*[(,]" % re.escape(name), text):
+                _die(f"{fn}: @h line without matching fn: {m.group(1)}")
             out.append(Harness(prop, module, name, meta))
     names = [h.name for h in out]
     for a in names:
         for b in names:
             if a != b and a in b:
-                raise SystemExit(f"harness name {a} is a substring of {b}")
+                _die(f"harness name {a} is a substring of {b}")
     return out
 
 
@@ -201,6 +206,16 @@ def parse_kani(out):
     return checks, verdict, stats
 
 
+MEM_PATTERNS = ("rust_dealloc must be called", "dynamically allocated memory never freed", "dereference failure",
+                "double free", "free argument", "deallocated dynamic object", "Offset result", "pointer relation",
+                "misaligned", "memcpy", "memmove", "memcmp", "pointer NULL", "pointer invalid", "same object violation",
+                "pointer arithmetic", "realloc")
+
+
+def mem_class(desc):
+    return any(p in desc for p in MEM_PATTERNS)
+
+
 def check_class(cid):
     # e.g. "entry::verif::foo.assertion.1" -> "assertion"; "...unwind.0"
     parts = cid.split(".")
@@ -233,7 +248,7 @@ def run_harness(root, h, logdir):
         res["outcome"] = "inconclusive"; res["why"] = f"timeout after {h.timeout}s"
     elif verdict is None:
         why = "no verdict"
-        if "Status: ERROR" in out or "out of memory" in out.lower() or "std::bad_alloc" in out:
+        if "Solver ran out of memory" in out or "Status: ERROR" in out or "out of memory" in out.lower() or "std::bad_alloc" in out:
             why = "CBMC error / out of memory"
         elif "error: internal compiler error" in out or "Kani unexpectedly panicked" in out:
             why = "Kani internal error"
@@ -258,6 +273,7 @@ def run_harness(root, h, logdir):
         elif real_fail:
             res["outcome"] = "fail"
             res["why"] = "; ".join(sorted(set(c["desc"] for c in real_fail))[:5])
+            res["mem_only"] = all(mem_class(c["desc"]) for c in real_fail)
         elif incl_fail:
             res["outcome"] = "inconclusive"; res["why"] = "unsupported/missing definition: " + incl_fail[0]["desc"][:120]
         elif unwind_fail:
@@ -265,7 +281,8 @@ def run_harness(root, h, logdir):
         elif undet:
             res["outcome"] = "inconclusive"; res["why"] = "undetermined checks"
         elif verdict != "SUCCESSFUL":
-            res["outcome"] = "inconclusive"; res["why"] = "verdict " + verdict
+            res["outcome"] = "inconclusive"
+            res["why"] = "solver ran out of memory" if "ran out of memory" in out else "verdict " + verdict
         elif unsat_covers:
             res["outcome"] = "inconclusive"
             res["why"] = "reachability witness not satisfied (vacuous): " + unsat_covers[0]["desc"][:120] + " @ " + unsat_covers[0]["loc"][:80]
@@ -357,7 +374,8 @@ def main(prop, tier, seed, extra=None):
         ok, out, bdt = build(root, os.path.join(logdir, "build.log"))
         if not ok:
             notes.append("build failed (see logs): " + "\n".join(out.splitlines()[-15:]))
-            log("INCONCLUSIVE build of staged tree failed; last lines:\n" + "\n".join(out.splitlines()[-25:]))
+            errs = re.findall(r"^error(?:\[E\d+\])?:.*?(?=^\S|\Z)", out, flags=re.M | re.S)
+            log("INCONCLUSIVE build of staged tree failed:\n" + "\n".join(e.rstrip()[:1500] for e in errs[:6]))
             status = 2
         else:
             workers = int(os.environ.get("VERIF_JOBS", "8" if tier == "quick" else "6"))
@@ -378,7 +396,11 @@ def main(prop, tier, seed, extra=None):
                     rdir = os.path.join(VERIF, "replay", "generated", h.name)
                     info = replay(root, h, logdir, rdir)
                     res["replay"] = info
-                    if info.get("reproduced") is False:
+                    if info.get("reproduced") is False and res.get("mem_only"):
+                        info["note"] = ("failure class is a CBMC memory-model check (leak / double free / dealloc layout / invalid pointer): "
+                                        "not observable as a failing native test without an accounting allocator; reported on the solver's verdict, "
+                                        "the playback test reproduces the input that drives the code there")
+                    elif info.get("reproduced") is False:
                         res["outcome"] = "inconclusive"
                         res["why"] = "counterexample did not reproduce natively: " + res.get("why", "")
                         status = max(status, 2)
@@ -411,6 +433,8 @@ def main(prop, tier, seed, extra=None):
     finally:
         if root and not os.environ.get("VERIF_KEEP"):
             shutil.rmtree(root, ignore_errors=True)
+    if ev["violations"] > 0:
+        status = 1
     return finish(prop, tier, seed, ev, results, notes, status, t0)
 
 
